@@ -365,8 +365,13 @@ func genNode(depth int) *rapid.Generator[pgen.Node] {
 	return rapid.Custom(func(t *rapid.T) pgen.Node {
 		sub := func(l string) pgen.Node { return genNode(depth-1).Draw(t, l) }
 		if depth <= 0 {
-			if rapid.IntRange(0, 3).Draw(t, "lit") == 0 {
+			switch rapid.IntRange(0, 7).Draw(t, "lit") {
+			case 0, 1:
 				return pgen.Atom{Text: fmt.Sprint(rapid.IntRange(0, 9).Draw(t, "n"))}
+			case 2:
+				// unit tokens whose text looks like an operator, a chain or a keyword: char literals, symbols, strings, odd names
+				return pgen.Atom{Text: rapid.SampledFrom([]string{"?.", "?@", "?$", "?a", "?,", "?|", "?&", "?~", "?=", "?-", "?!", "?:", "'a", "'if?", "'+", "'<=>", `"s"`, "`r`", `"a.b"`, `"if"`, "1.5", "0x1f", "1e3",
+					"ok?", "go!", "iffy", "returned", "elsewhere", "_p", "nil", "true"}).Draw(t, "odd unit")}
 			}
 			return pgen.Atom{Text: rapid.SampledFrom(names).Draw(t, "id")}
 		}
